@@ -1471,11 +1471,9 @@ def _make_c_or_py_source(ffi, module_name, preamble, target_file, verbose):
         tmp_file = '%s.~%d' % (target_file, os.getpid())
         with open(tmp_file, 'w') as f1:
             f1.write(output)
-        try:
-            os.rename(tmp_file, target_file)
-        except OSError:
-            os.unlink(target_file)
-            os.rename(tmp_file, target_file)
+        # os.replace() also replaces an existing file on Windows, where
+        # os.rename() refuses to: the target is never missing
+        os.replace(tmp_file, target_file)
         return True
 
 def make_c_source(ffi, module_name, preamble, target_c_file, verbose=False):
